@@ -53,7 +53,7 @@ func c07Judge(t vt.TB, rec *stats.Recorder, c *gcmCase, open func(nonce, ct, aad
 // verifProp_C07_Open builds the property (shared by the rapid test and the native fuzz target).
 func verifProp_C07_Open() func(*rapid.T) {
 	rec := stats.Get("C07", "open")
-	rec.Rule("rapid: a sealed message from the C06 generator (all length classes, nonce lengths, tag sizes, counter wrap), then mutations, each opened from a fresh copy of the ciphertext: none; flip one drawn bit of ciphertext body / tag / nonce / aad (several per message; every tag bit for one message in eight); drop or append 1..20 bytes at either end; truncate the tag by 1..4 bytes under the same AEAD; swap two blocks; strings shorter than the tag (0..tag-1 bytes); extend aad. Oracle: unchanged -> (plaintext,nil); otherwise err != nil and nil slice, no panic; verdict cross-checked with gcmref.Open. Every evaluation (message x mutation) is one case; non-trivial: any mutated case, or authentic with a tail / wide kernel / non-default tag or nonce; distinct by (message, mutation).")
+	rec.Rule("rapid: a sealed message from the C06 generator (all length classes, nonce lengths, tag sizes, counter wrap), then mutations, each opened from a fresh copy of the ciphertext: none; flip one drawn bit of ciphertext body / tag / nonce / aad (several per message; every tag bit for one message in eight); drop or append 1..20 bytes at either end; truncate the tag by 1..4 bytes under the same AEAD; swap two blocks; strings shorter than the tag (0..tag-1 bytes); extend aad; structured multi-position changes (the same delta at two positions 1/2/4/8 bytes apart in tag or body, a delta repeated with period 4 or 8 over the tag, the two tag halves swapped, an equal delta on both tag halves, 2-3 independent bit flips). Oracle: unchanged -> (plaintext,nil); otherwise err != nil and nil slice, no panic; verdict cross-checked with gcmref.Open. Every evaluation (message x mutation) is one case; non-trivial: any mutated case, or authentic with a tail / wide kernel / non-default tag or nonce; distinct by (message, mutation).")
 	return func(t *rapid.T) {
 		c := drawGCMCase(t)
 		a, err := c.aead()
@@ -92,6 +92,56 @@ func verifProp_C07_Open() func(*rapid.T) {
 			for bit := 0; bit < c.TagSize*8; bit++ {
 				add("flip-tag", c.Nonce, flip(sealed, body*8+bit), c.AAD)
 			}
+		}
+		// structured multi-position changes: the same delta at two positions a fixed distance apart (tag and body), swapped halves /
+		// words of the tag, a delta repeated with period 4 or 8 — differences that cancel in a comparison that combines words wrongly
+		xorAt := func(b []byte, pos []int, d byte) []byte {
+			o := append([]byte(nil), b...)
+			for _, p := range pos {
+				o[p] ^= d
+			}
+			return o
+		}
+		for i := 0; i < 3; i++ {
+			dist := []int{1, 2, 4, 8}[gen.Uniform(t, "pairdist", 0, 3)]
+			if c.TagSize > dist {
+				p0 := gen.Uniform(t, "pairpos", 0, c.TagSize-dist-1)
+				add("tag-paired-delta", c.Nonce, xorAt(sealed, []int{body + p0, body + p0 + dist}, byte(gen.Uniform(t, "delta", 1, 255))), c.AAD)
+			}
+			if body > dist {
+				p0 := gen.Uniform(t, "bpairpos", 0, body-dist-1)
+				add("body-paired-delta", c.Nonce, xorAt(sealed, []int{p0, p0 + dist}, byte(gen.Uniform(t, "bdelta", 1, 255))), c.AAD)
+			}
+		}
+		for _, period := range []int{4, 8} {
+			var pos []int
+			for p0 := gen.Uniform(t, "perstart", 0, period-1); p0 < c.TagSize; p0 += period {
+				pos = append(pos, body+p0)
+			}
+			add("tag-periodic-delta", c.Nonce, xorAt(sealed, pos, byte(gen.Uniform(t, "pdelta", 1, 255))), c.AAD)
+		}
+		if c.TagSize == 16 {
+			sw := append([]byte(nil), sealed...)
+			copy(sw[body:body+8], sealed[body+8:])
+			copy(sw[body+8:], sealed[body:body+8])
+			add("tag-halves-swapped", c.Nonce, sw, c.AAD)
+			// any tag whose two halves XOR to the same value as the true tag's halves
+			r8 := gen.RandBytes(r, 8)
+			eq := append([]byte(nil), sealed...)
+			for i := 0; i < 8; i++ {
+				eq[body+i] ^= r8[i]
+				eq[body+8+i] ^= r8[i]
+			}
+			add("tag-equal-half-delta", c.Nonce, eq, c.AAD)
+		}
+		{
+			// two and three independent bit flips
+			o := append([]byte(nil), sealed...)
+			for i := 0; i < 2+gen.Uniform(t, "nmulti", 0, 1); i++ {
+				bit := gen.Uniform(t, "multibit", 0, len(o)*8-1)
+				o[bit>>3] ^= 0x80 >> uint(bit&7)
+			}
+			add("multi-bit", c.Nonce, o, c.AAD)
 		}
 		k := gen.Int(t, "k", 1, 20)
 		if len(sealed) >= k {
